@@ -593,6 +593,28 @@ def rule_r5(prog, res) -> None:
             res.violation("C09.R5", create, raw.node, f"a column is stored without the finite-checking conversion ({what})", key_extra="raw-store")
     else:
         res.ok("C09.R5", res.site(create, "asarray_chkfinite"), f"with chkfinite true all {n_stores} column store(s) go through numpy.asarray_chkfinite")
+    # (b') the readers rely on the default: every call of DataChunk.create from a reader of user data either passes
+    # chkfinite explicitly true or leaves it to a default that is True
+    a_ = create.node.args
+    kd = {q.arg: d for q, d in zip(a_.kwonlyargs, a_.kw_defaults) if d is not None}
+    kd.update(dict(zip([q.arg for q in a_.args][len(a_.args) - len(a_.defaults) :], a_.defaults)))
+    dflt = kd.get("chkfinite")
+    n_calls = 0
+    for fi in prog.funcs:
+        if not fi.module.name.startswith("yaw.catalog.readers"):
+            continue
+        for c in calls_in(fi):
+            if create not in prog.resolve_call(fi, c).funcs():
+                continue
+            n_calls += 1
+            given = kwarg(c, "chkfinite")
+            eff = given if given is not None else dflt
+            if isinstance(eff, ast.Constant) and eff.value is True:
+                res.ok("C09.R5", res.site(fi, "chkfinite"), "chunks of user data are created with the finite check on" + ("" if given is not None else " (default)"), nontrivial=False)
+            else:
+                res.violation("C09.R5", fi, c, f"{fi.qualname} creates chunks of user data with chkfinite={unparse(eff) if eff is not None else 'unset'}" + ("" if given is not None else " (the default of DataChunk.create)") + ": NaN / infinite coordinates, weights and redshifts are stored instead of being rejected", key_extra=f"chkfinite-off-{fi.qualname}")
+    if n_calls < 3:
+        raise AnalysisError(f"C09.R5: only {n_calls} DataChunk.create calls found in the readers, minimum 3")
     # (c) check_patch_ids raises on both sides of the range, for the ids AS GIVEN: decided on the symbolic paths —
     # the raising decision is folded for ids below, inside and above the range, and the compared array must not have
     # been narrowed to the storage type before (a wrapped value passes any range check)
@@ -622,6 +644,8 @@ def rule_r5(prog, res) -> None:
             "the records are silently stored in another patch",
             key_extra="range-check-after-narrowing",
         )
+    elif not mins and not maxs and not any(p.outcome == "raise" for p in cpaths):
+        res.violation("C09.R5", check_ids, check_ids.node, "check_patch_ids no longer raises on any path: patch ids outside the range of the stored integer type are accepted and wrap around when stored", key_extra="range-check-gone")
     elif not mins and not maxs:
         raise AnalysisError("C09.R5: the patch-id range check does not compare the minimum and maximum of the ids (idiom not recognised)")
     elif not mins or not maxs:
@@ -639,6 +663,8 @@ def rule_r5(prog, res) -> None:
         elif verdict["inside"] == {"return"} and ("return" in verdict["below"] and "raise" not in verdict["below"] or "return" in verdict["above"] and "raise" not in verdict["above"]):
             lo, hi = verdict["below"] == {"raise"}, verdict["above"] == {"raise"}
             res.violation("C09.R5", check_ids, check_ids.node, f"patch-id range check is one-sided (lower={lo}, upper={hi})", key_extra="one-sided-range")
+        elif verdict["inside"] == {"raise"} or (verdict["inside"] == {"return"} and False):
+            res.violation("C09.R5", check_ids, check_ids.node, f"the patch-id range check rejects ids that ARE inside the range (0 … 5 of at most 32767; outcomes below / inside / above: {verdict}): the smallest / largest valid patch id cannot be used, or the check is inverted", key_extra="range-check-rejects-valid")
         else:
             raise AnalysisError(f"C09.R5: cannot fold the patch-id range check (outcomes below / inside / above the range: {verdict})")
     # (d) PatchMode.determine never falls off the end
